@@ -1,0 +1,36 @@
+//go:build verif
+
+// Contracts for package iprange, checked by /verif/engine (govc). Comment-only file.
+
+package iprange
+
+// inrange(r, ip): membership as computed by Contains (defined by C14's contracts).
+//@ spec inrange(r ref, iparr int, ipoff int, iplen int) bool
+
+//@ func IPRange.Contains results(ok)
+//@   tags C14,C15,C04
+//@   trusted
+//@   requires r != nil
+//@   ensures ok == inrange(r, ip.$arr, ip.$off, len(ip))
+
+//@ func filteringListener.shouldAccept results(ok)
+//@   tags C15,C04
+//@   requires l != nil && l.r != nil
+//@   ensures[C15] ok == (inrange(l.r, ip.$arr, ip.$off, len(ip)) != l.invert) @whitelist-or-inverted
+
+//@ func filteringListener.Accept results(c, err)
+//@   tags C15,C04
+//@   requires l != nil && l.Listener != nil && l.r != nil
+//@   requires forall g {lacc[g]} :: lacc[g] ==> allocated(g) @only-existing-connections-were-accepted-before
+//@   modifies lacc, iofaults, connclosed
+//@   ensures[C15] err == nil ==> c != nil && !connclosed[c] && lacc[c] && !old(lacc[c]) @an-accepted-connection-is-returned-open
+//@   ensures[C15] err == nil && typeis(remoteaddr(c), "*net.TCPAddr") ==> inrange(l.r, ofield(remoteaddr(c), "net.TCPAddr.IP.$arr"), ofield(remoteaddr(c), "net.TCPAddr.IP.$off"), ofield(remoteaddr(c), "net.TCPAddr.IP.$len")) != l.invert @tcp-peer-admitted-by-the-rule
+//@   ensures[C15] err == nil && typeis(remoteaddr(c), "*net.IPAddr") ==> inrange(l.r, ofield(remoteaddr(c), "net.IPAddr.IP.$arr"), ofield(remoteaddr(c), "net.IPAddr.IP.$off"), ofield(remoteaddr(c), "net.IPAddr.IP.$len")) != l.invert @ip-peer-admitted-by-the-rule
+//@   ensures[C15] forall g {lacc[g]} :: lacc[g] && !old(lacc[g]) && g != c ==> connclosed[g] @every-rejected-connection-is-closed
+//@   ensures[C15] forall g {connclosed[g]} :: old(lacc[g]) ==> connclosed[g] == old(connclosed[g]) @other-connections-untouched
+//@   loop 1 invariant forall g {lacc[g]} :: lacc[g] && !old(lacc[g]) ==> connclosed[g] @rejected-so-far-are-closed
+//@   loop 1 invariant (forall g {connclosed[g]} :: old(lacc[g]) ==> connclosed[g] == old(connclosed[g])) && (forall g {lacc[g]} :: old(lacc[g]) ==> lacc[g]) && iofaults >= old(iofaults) @frame
+
+//@ func FilterListener results(fl)
+//@   tags C15,C04
+//@   ensures[C15] fl != nil && typeis(fl, "*iprange.filteringListener") && cast(fl, "iprange.filteringListener").Listener == l && cast(fl, "iprange.filteringListener").r == r && cast(fl, "iprange.filteringListener").invert == invert @wraps-the-given-listener
